@@ -64,7 +64,7 @@
 //@}
 //@fn remove_invalid_checks
 //@head{
-    requires b_inv(*old(self), *helper), h_lo(*helper) <= block_idx as int * 256, block_idx < helper.num_blocks
+    requires b_inv(*old(self), *helper), h_lo(*helper) <= block_idx as int * helper.block_len as int, block_idx < helper.num_blocks
     ensures b_inv(*final(self), *helper), final(self).states@.len() == old(self).states@.len(),
         final(self).num_free_blocks == old(self).num_free_blocks, final(self).match_kind == old(self).match_kind,
         forall|i: int| 0 <= i < old(self).states@.len() ==> (#[trigger] final(self).states@[i]).base == old(self).states@[i].base
@@ -177,18 +177,16 @@
 //@}
 //@start{
     let ghost h0 = *helper;
-    let ghost mut kbd: int = -1;
+    let ghost kbd: int = if h0.num_blocks >= h0.num_free_blocks { h0.num_blocks - h0.num_free_blocks } else { -1 };
     proof { lemma_window(h0); }
-//@}
-//@before 1 self.remove_invalid_checks(closed_block_idx, helper);{
-    proof { assert(closed_block_idx as int * 256 == h_lo(h0)); kbd = closed_block_idx as int; }
 //@}
 //@before 1 helper.push_block()?;{
     let ghost sr = self.states@;
     proof {
-        let nb = h0.num_blocks as int; let nf = h0.num_free_blocks as int;
-        assert((kbd >= 0) == (nb >= nf));
+        // the block that is about to leave the window (if any) has just been sanitised; the hook does not name the
+        // variable of the `if let`, the facts come from the contracts of dropped_block and remove_invalid_checks
         if kbd >= 0 { assert(kbd * 256 == h_lo(h0)); assert(h_lo(h0) / 256 == kbd) by (nonlinear_arith) requires kbd * 256 == h_lo(h0); assert(hb_sane(sr, h0, kbd)); }
+        else { assert(sr == old(self).states@); }
     }
 //@}
 //@after 1 helper.push_block()?;{
